@@ -26,3 +26,17 @@ impl Lexicon<'static> {
         self.lex_id
     }
 }
+
+#[cfg(kani)]
+impl Lexicon<'static> {
+    /// harness helper: a lexicon over a double array and word-id table produced by the builder
+    pub(crate) fn verif_from_index(units: &[u32], table: &'static [u8]) -> Self {
+        Lexicon {
+            trie: Trie::new_owned(units.to_vec()),
+            word_id_table: WordIdTable::new(table, table.len() as u32, 0),
+            word_params: WordParams::new(&[], 0, 0),
+            word_infos: WordInfos::new(&[], 0, 0, false),
+            lex_id: u8::MAX,
+        }
+    }
+}
